@@ -8,7 +8,7 @@ package main
 //
 // VERIF_C20_SCN   scenario file, one JSON object per line: {"id":n,"keys":[byte values; 13 = Enter]}
 // VERIF_C20_OUT   result file, one JSON object per scenario
-// VERIF_C20_MODES comma separated read schedules (default: all)
+// VERIF_C20_MODES comma separated read schedules (default: the six basic ones); a scenario may name its own
 
 import (
 	"bufio"
@@ -16,13 +16,15 @@ import (
 	"fmt"
 	"io"
 	"os"
+	"strconv"
 	"strings"
 	"testing"
 )
 
 type vcScenario struct {
-	ID   int   `json:"id"`
-	Keys []int `json:"keys"`
+	ID    int      `json:"id"`
+	Keys  []int    `json:"keys"`
+	Modes []string `json:"modes,omitempty"` // read schedules for this scenario (default: VERIF_C20_MODES)
 }
 
 // vcRun is the outcome of one scenario under one or more read schedules
@@ -71,8 +73,23 @@ var vcAllModes = []string{"typed", "lines", "paste", "bracketed", "bracketed_ent
 //	bracketed        ESC[200~ everything ESC[201~ in one read
 //	bracketed_enter  ESC[200~ everything but the final Enter ESC[201~ in one read, then Enter typed
 //	bracketed4       the bracketed stream delivered four bytes per read
+//	max<N>           the plain stream through a reader that returns at most N bytes per Read
+//	                 (input arriving faster than it is consumed: a long paste or piped input)
 func vcChunks(mode string, keys []byte) [][]byte {
 	cp := func(b []byte) []byte { return append([]byte(nil), b...) }
+	if strings.HasPrefix(mode, "max") {
+		n, err := strconv.Atoi(mode[3:])
+		if err != nil || n < 1 {
+			panic("bad mode " + mode)
+		}
+		var out [][]byte
+		b := keys
+		for len(b) > n {
+			out = append(out, cp(b[:n]))
+			b = b[n:]
+		}
+		return append(out, cp(b))
+	}
 	switch mode {
 	case "typed":
 		var out [][]byte
@@ -225,7 +242,11 @@ func TestVerifConsole(t *testing.T) {
 			keys[i] = byte(k)
 		}
 		res := vcResult{ID: s.ID}
-		for _, m := range modes {
+		use := modes
+		if len(s.Modes) > 0 {
+			use = s.Modes
+		}
+		for _, m := range use {
 			r := vcExec(m, keys)
 			merged := false
 			for i := range res.Runs {
